@@ -133,7 +133,8 @@ impl Tally {
             self.samples.extend(o.samples);
         }
     }
-    fn add(&mut self, sig: String, text: String, replay: Value) {
+    fn add(&mut self, sig: impl Into<String>, text: String, replay: Value) {
+        let sig: String = sig.into();
         let n = self.counts.entry(sig.clone()).or_insert(0);
         *n += 1;
         if *n <= 2 {
@@ -195,7 +196,7 @@ fn judge_batch(batch: &[(TrackSpec, i64)], tally: &mut Tally) {
                     );
                 }
                 if g < 0 && lo >= 0 {
-                    tally.add("C07:negative-bound".into(), format!("published bound {got} ns is negative"), spec_json(t, *phc));
+                    tally.add("C07:negative-bound", format!("published bound {got} ns is negative"), spec_json(t, *phc));
                 }
                 if tally.samples.len() < 3 && tally.judged % 7919 == 1 {
                     tally.samples.push(json!({"report": spec_json(t, *phc), "published_bound_ns": got, "accepted": [lo.to_string(), hi.to_string()]}));
@@ -205,7 +206,7 @@ fn judge_batch(batch: &[(TrackSpec, i64)], tally: &mut Tally) {
         Err(e) => {
             // find the culprit by bisection so the replay names one report
             if fed.len() == 1 {
-                tally.add("C07:panic".into(), format!("the daemon panicked on a report in the meaningful range: {e}"), spec_json(&fed[0].0, fed[0].1));
+                tally.add("C07:panic", format!("the daemon panicked on a report in the meaningful range: {e}"), spec_json(&fed[0].0, fed[0].1));
             } else {
                 let (a, b) = fed.split_at(fed.len() / 2);
                 judge_batch(a, tally);
@@ -293,6 +294,47 @@ pub fn run(ctx: &Ctx) -> i32 {
         tally.merge(p);
     }
     let product = tally.evaluated;
+    // 1b. the PHC term through the real poller: reference id = the configured PHC, its error bound read from a
+    // file, for every variant of the report fields that should not matter (stratum, source address, ...)
+    let mut poller_cases = 0u64;
+    {
+        use crate::histmc::pipeline::{Answer, PollerLife, Query, AUX_VARIANTS};
+        let dir = ctx.scratch();
+        const ID: u32 = 0x50484330;
+        for aux in AUX_VARIANTS {
+            pipeline::set_aux_variant(aux);
+            for (o, d, s) in [(0.007f64, 0.1f64, 0.02f64), (-0.000_2, 0.000_05, 0.000_01), (0.0, 0.0, 0.0)] {
+                for phc in [1i64, 12_345, 48_000, 1 << 40] {
+                    poller_cases += 1;
+                    let f = dir.join("phc_error_bound");
+                    let _ = std::fs::write(&f, format!("{phc}\n"));
+                    let spec = TrackSpec { ref_id: ID, leap: 0, ref_time_ns: NOW_REAL - 1_000_000_000, offset_bits: encode_float(o), delay_bits: encode_float(d), disp_bits: encode_float(s), interval_bits: encode_float(16.0) };
+                    vclock::arm(VClock { real_ns: NOW_REAL, mono_ns: NOW_MONO, auto_advance_ns: 0, fail_errno: 0, fail_clock: -1 });
+                    let r = std::panic::catch_unwind(std::panic::AssertUnwindSafe(|| {
+                        let mut life = PollerLife::new();
+                        let msgs = life.poll_once(Some(clock_bound_d::PhcInfo { refid: ID, sysfs_error_bound_path: f.clone() }), Query { answer: Answer::Wire(pipeline::tracking_wire(&spec, 9)), latency_ns: 0 });
+                        pipeline::published_for(msgs, 1000)
+                    }));
+                    vclock::disarm();
+                    let (lo, hi) = accepted_bound(&spec, phc).unwrap();
+                    let doc = json!({"route": "through the poller, PHC configured and matching", "report_field_variant": aux, "report": spec_json(&spec, phc)});
+                    match r {
+                        Ok(recs) if recs.len() == 1 => {
+                            tally.evaluated += 1;
+                            tally.judged += 1;
+                            let g = recs[0].bound as i128;
+                            if g < lo || g > hi {
+                                tally.add(if g < lo { "C07:phc-term-missing-or-too-small" } else { "C07:phc-term-too-large" }, format!("PHC is the reference (error bound {phc} ns, report field variant {aux}): published bound {g} ns, expected {lo}..{hi} ns"), doc);
+                            }
+                        }
+                        Ok(recs) => tally.add("C07:poller-route-publications", format!("{} publications for one poll", recs.len()), doc),
+                        Err(_) => tally.add("C07:panic", "the poller or the writer loop panicked".into(), doc),
+                    }
+                }
+            }
+        }
+        pipeline::set_aux_variant(0);
+    }
     // 2. whole-field sweeps
     let mut sweeps: Vec<Value> = vec![];
     let fixed: Vec<(u32, u32)> = vec![(encode_float(0.1), encode_float(0.02)), (0, 0)];
@@ -364,6 +406,7 @@ pub fn run(ctx: &Ctx) -> i32 {
         ("rule", json!("cross product of per-field alphabets of chrony 32-bit float encodings (offset both signs; delay, dispersion; PHC bound) plus sweeps of whole field domains; each report is a distinct wire message; non-trivial = judged reports with a non-zero offset. Reports with some |value| >= 2^30 s or a negative delay/dispersion are outside the statement's meaningful range: enumerated, not fed")),
         ("samples", json!(tally.samples)),
         ("alphabet_product_reports", json!(product)),
+        ("phc_term_through_the_real_poller_cases", json!(poller_cases)),
         ("judged_in_meaningful_range", json!(tally.judged)),
         ("sweeps", json!(sweeps)),
         ("offset_alphabet_bits", json!(offs)),
